@@ -335,6 +335,30 @@ Theorem C12_http_limit_off_by_one_refuted :
 Proof. exact http_limit_off_by_one_refuted. Qed.
 Print Assumptions C12_http_limit_off_by_one_refuted.
 
+(* ---------------------------------------------------------------- request ownership ----- *)
+
+(* A call abandoned while its request is queued or being written (context ended, the write
+   happens later): if the transport frames its own copy, the service gets the request as
+   submitted whatever the caller does with its buffer afterwards ... *)
+Theorem C12_abandoned_copy_exact : forall max i b0 b1, wf_frame (Server max) (i, b0) ->
+  recv_frames (Server max) (abandoned_wire Copies i b0 b1) = ([(i, b0)], EndEOF).
+Proof. exact abandoned_copy_exact. Qed.
+Print Assumptions C12_abandoned_copy_exact.
+
+(* ... if it keeps the caller's slice, the service gets whatever the buffer holds at write
+   time, under a header (and checksum) that is perfectly valid: the framing cannot notice *)
+Theorem C12_abandoned_alias_delivers_later_bytes : forall max i b0 b1,
+  wf_frame (Server max) (i, b0) -> length b1 = length b0 ->
+  recv_frames (Server max) (abandoned_wire Aliases i b0 b1) = ([(i, b1)], EndEOF).
+Proof. exact abandoned_alias_delivers_later_bytes. Qed.
+Print Assumptions C12_abandoned_alias_delivers_later_bytes.
+
+Theorem C12_abandoned_alias_refuted :
+  exists i b0 b1, wf_frame (Server 100) (i, b0) /\ length b1 = length b0 /\
+    fst (recv_frames (Server 100) (abandoned_wire Aliases i b0 b1)) <> [(i, b0)].
+Proof. exact abandoned_alias_refuted. Qed.
+Print Assumptions C12_abandoned_alias_refuted.
+
 (* ---------------------------------------------------------------- witnesses ----------- *)
 
 From Coq Require Strings.String.
